@@ -95,7 +95,7 @@ def check_init(run, pkg, attrs, ex):
             if len(a) >= 2:
                 tr = S.Translator(atom_of, True)
                 g = tr.tr(a[1])
-                ref = sp.Function("builtins.int")(qr * 2 / (2 * sp.pi / Lm))
+                ref = S.PyInt(qr * 2 / (2 * sp.pi / Lm))
                 ok, how = S.decide_equal(g, ref)
                 run.ob("R-ALG", fq, f"{arm}:numofq", ok if not (ok is False and tr.atoms) else None, "number of integer steps = int(2 qrange / min(2 pi / L))",
                        sp.sstr(g)[:100], witness=None if ok is not False else how, loc=loc)
